@@ -326,6 +326,17 @@ def _c14l_case(seed):
             defs[i] = (defs[i][0], ("names", defs[i][1][1] + [rng.choice(below)]))
     subject, obj = defs[0][0], defs[1][0]
     verb, acc, exc = rng.choice([(v, a, e) for v in ("should", "should_only", "should_not") for a in (True, False) for e in (False, True)])
+    if seed < 0:
+        # deterministic family: a layer lists a package P and one child P.s; the import leaves from ANOTHER child P.t (or below it), which belongs to the layer through P.
+        # The lookup walks a sorted name list, so every relative order of s and t must give the same answer (the namings below produce both orders).
+        k = -seed - 1
+        P, s_, t_, far = [("r.a", "r.a.x", "r.a.y.q", "r.c.z"), ("r.a", "r.a.y", "r.a.x.p", "r.c"), ("r.b", "r.b.x", "r.b.w", "r.c.z"), ("r.b", "r.b.w", "r.b.x", "r.d"),
+                          ("r.a", "r.a.x", "r.a.y", "r.G.k"), ("r.G", "r.G.k", "r.G", "r.c")][k // 4 % 6]
+        defs = [("L0", ("names", [P, s_])), ("L1", ("names", [far.rsplit(".", 1)[0] if far.count(".") > 1 else far]))]
+        imports = [(t_, far)] if k % 2 == 0 else [(far, t_)]
+        subject, obj = "L0", "L1"
+        verb, acc, exc = [("should_not", True, False), ("should", True, False), ("should_not", False, False), ("should_only", True, True)][k % 4] if k % 2 == 0 else \
+                         [("should_not", False, False), ("should", False, False), ("should_not", True, False), ("should_only", False, True)][k % 4]
     res = {}
     # (the fourth naming reverses the alphabetical order of the components: sorted name lists come out in the opposite order)
     RHO_REV = {"r": "r", "a": "y", "b": "x", "c": "w", "d": "v", "x": "c", "y": "b", "p": "a", "xy": "bb", "ab": "yy", "bc": "xx"}
@@ -364,7 +375,7 @@ def _c14l_case(seed):
 def bounded_layer_label_renaming(tier, seed):
     b = Bounded("C14.layer-attribution-and-labels-under-renaming", "12-module tree, 1-6 imports, random name-defined layers, one random layer-rule shape and one alias map; compared under one collision-free and two "
                 "adversarial injective component renamings; 600 (quick) / 40000 cases")
-    for res in pmap(_c14l_case, [seed * 100003 + i for i in range(600 if tier == "quick" else 40000)]):
+    for res in pmap(_c14l_case, list(range(-24, 0)) + [seed * 100003 + i for i in range(600 if tier == "quick" else 40000)]):
         b.case()
         for v in res:
             b.violation(v["case"], v["detail"], v["input"])
